@@ -55,6 +55,14 @@ ShaPad(msg, w) ==
         z  == (2 * bl - ((Len(msg) + 1 + ll) % bl)) % bl
     IN msg \o <<128>> \o [i \in 1..z |-> 0] \o ToBytesBE(Mul(FromInt(Len(msg)), <<8>>), ll)
 
+\* the same with `extra` more bytes (a whole number of blocks, a BigNat) counted in the length field: what an instance
+\* whose byte counter was advanced without processing data must produce
+ShaPadX(msg, w, extra) ==
+    LET bl == BlockLen(w)
+        ll == bl \div 8
+        z  == (2 * bl - ((Len(msg) + 1 + ll) % bl)) % bl
+    IN msg \o <<128>> \o [i \in 1..z |-> 0] \o ToBytesBE(LowBits(Mul(Add(FromInt(Len(msg)), extra), <<8>>), 8 * ll), ll)
+
 RECURSIVE ShaAbsorb(_, _, _, _)
 ShaAbsorb(H, padded, i, w) ==
     IF i > Len(padded) THEN H
@@ -75,6 +83,7 @@ Name512_256 == <<83, 72, 65, 45, 53, 49, 50, 47, 50, 53, 54>>
 IV512_224 == Sha512tIV(Name512_224)
 IV512_256 == Sha512tIV(Name512_256)
 
+ShaHashX(msg, iv, w, outlen, extra) == SubSeq(CatBE(ShaAbsorb(iv, ShaPadX(msg, w, extra), 1, w), 1, w \div 8), 1, outlen)
 SHA224(m) == ShaHash(m, SHA_IV224, 32, 28)
 SHA256(m) == ShaHash(m, SHA_IV256, 32, 32)
 SHA384(m) == ShaHash(m, SHA_IV384, 64, 48)
